@@ -125,6 +125,7 @@ type Engine struct {
 	lockSnap              map[string]*State // state right after the last acquisition of a lock (lockrely guarantee)
 	levels map[[2]string]bool
 	siteOrd, siteHit map[string]int
+	storeAllocName   string // name of the heap-allocated local a store instruction writes (site naming)
 	curBindings      []Val  // bindings of the closure whose contract is being applied at a call (names of captured variables)
 	curBindFrame     *Frame
 	curBlock *ssa.BasicBlock
